@@ -49,10 +49,16 @@ CHECKS = {
          "scanner must produce exactly the predicted kinds, texts and lines. The parser is bound by trace validation: every compilation of "
          "~70 000 inputs (prefixes, token-range deletions / duplications / swaps / substitutions / insertions, Unicode noise over the repository's "
          "scripts; all pairs and sampled longer sequences over the token vocabulary; nesting around the stated bounds) must return, fail only with "
-         "located compile errors, and its ErrorAt / Synchronise / ParseEnd events must be accepted by TraceParser.tla.",
-    note="The grammar is not modelled: for parser inputs the oracle is totality, located messages and the recovery discipline. Unbounded nesting "
-         "(10^5 open parentheses) is outside the property's stated bounds and is not generated.",
-    technique="TLA+ scanner spec + TLC exhaustive enumeration replayed on the real scanner; trace validation of parser events", design="4 C03"),
+         "located compile errors, and its ErrorAt / Synchronise / ParseEnd events must be accepted by TraceParser.tla. Parser.tla is the recogniser "
+         "half of compiler.rs as a total function of the token sequence (one operator per parser function, the same order of advance calls, the "
+         "Pratt table, every consume with its message, statements, attributes, and the context rules: return / break / continue / self / Self / "
+         "super placement, duplicate declarations, reads in a variable's own initialiser, a class deriving itself, importing main); under TLC it "
+         "predicts for the repository's scripts, ~3 000 mutations of them, all token pairs and 30 000 longer sequences (one token per line) whether "
+         "compilation succeeds and otherwise the first recorded error - offending token, its line, the message - and the compiler must agree exactly.",
+    note="After the first recorded error only the recovery discipline is specified, not which later messages appear. Sources with non-ASCII "
+         "characters, quotes or backslashes in token texts are not given to the parser twin (TLC strings) but are still compiled and trace-validated. "
+         "Unbounded nesting (10^5 open parentheses) is outside the property's stated bounds and is not generated.",
+    technique="TLA+ scanner spec + TLC exhaustive enumeration replayed on the real scanner; TLA+ parser twin (accept / reject, first error) evaluated by TLC per input and compared with the compiler; trace validation of parser events", design="4 C03"),
  "C10": dict(
     level="model_checking",
     text="One specification (Machine.tla) is the arbiter for every build configuration: a stratified sample of all scenario families (closures, "
@@ -95,7 +101,9 @@ CHECKS = {
          "reads, writes and calls through module objects; the importer's globals of every kind - values, built-in functions, classes, closures - "
          "stay invisible inside modules and are not attributes of them) are executed by the machine under TLC and replayed on both builds through a "
          "module loader serving the generated sources; 120 products of how control comes back into a module (exception landing on a handler, fiber "
-         "yield / finish, return, import completing or failing) x what the continuing code does with its globals.",
+         "yield / finish, return, import completing or failing) x what the continuing code does with its globals; 45 products of a built-in name "
+         "(print, type, Vec, StopIter, Error, Fiber, String, Object, TypeError) rebound by the importer, by the imported module's body or by one of "
+         "its functions, before or after another module is loaded, while every other module keeps using the built-in.",
     note=MACHINE_NOTE + " Scenario products are built outside TLC; not exhaustive.",
     technique="TLA+ reference machine (TLC) + scenario products replayed on the implementation", design="4 C14"),
  "C15": dict(
@@ -118,7 +126,10 @@ CHECKS = {
          "kinds (every built-in failure class, thrown values, a host native failing with each ErrorKind) x call chains through functions, methods, "
          "bound and static methods, constructors, lambdas and fibers x catch site x an earlier handled throw; programs are printed one statement "
          "per line so every line number is predicted (string literals containing escaped line breaks included). Compile errors: 12 kinds of syntax "
-         "error placed at a random line must be reported at that line. A sample of the scenarios and of the non-compiling programs is also run by the "
+         "error placed at a random line must be reported at that line; and Parser.tla (the recogniser half of compiler.rs, see C03) predicts the first "
+         "recorded error - offending token, its line, message - of those programs, of 80 programs whose offending token sits on a line of its own "
+         "(attribute names and arguments, duplicate declarations, misplaced return / break / continue / self / super, missing delimiters after line "
+         "breaks) and of 1 500 mutations of the repository's multi-line scripts; the compiler's first message must be exactly that. A sample of the scenarios and of the non-compiling programs is also run by the "
          "shipped command-line program (yarel-cli, both builds): stdout, the messages on stderr and the exit status (0 / 65 / 70) must be what the "
          "specification's result implies.",
     note=MACHINE_NOTE + " Module frames in traces are covered by C14's scenarios.",
